@@ -157,9 +157,63 @@ func c11eHeadersStandby(t *testing.T, out *vh.Out) {
 	}
 }
 
+// c11eDisableFault: the only audit device is disabled while the write of the audit table fails. The disable answers with
+// an error and the device is still enabled (the table, in memory and in storage, lists it): the requests that follow must
+// still be audited by it. Control: a disable that succeeds leaves no device, and nothing is audited (by design).
+// Op line: disableaudit <fault 0|1> => <class>|listed:<0|1>|audited:<0|1>
+func c11eDisableFault(t *testing.T, out *vh.Out) {
+	for _, fault := range []int{1, 0} {
+		out.Reset()
+		p := vhNewPhys(t)
+		c, _, root := vhNewCore(t, p, nil, func(conf *CoreConfig) {
+			conf.AuditBackends["file"] = auditFile.Factory
+		})
+		logPath := filepath.Join(t.TempDir(), "audit.log")
+		fme := &routing.MountEntry{Table: auditTableType, Path: "c11dis", Type: "file", Options: map[string]string{"file_path": logPath}}
+		if err := c.enableAudit(vhRootCtx(), fme, true); err != nil {
+			t.Fatalf("enable file audit device: %v", err)
+		}
+		if fault == 1 {
+			p.FailKeyOnce("put", "core/audit", "")
+		}
+		_, err := c.disableAudit(vhRootCtx(), "c11dis", true)
+		cl := "ok"
+		if err != nil {
+			cl = "err"
+		}
+		if fault == 1 && !p.KeyFaultFired() {
+			cl += ":nofault"
+		}
+		listed := "0"
+		c.auditLock.RLock()
+		for _, e := range c.audit.Entries {
+			if e.Path == "c11dis/" {
+				listed = "1"
+			}
+		}
+		c.auditLock.RUnlock()
+		b0, _ := os.ReadFile(logPath)
+		if rcl, _ := vhReq(c, logical.ReadOperation, "sys/mounts", root, nil); rcl != "ok" {
+			cl += "|request:" + rcl
+		}
+		b1, _ := os.ReadFile(logPath)
+		audited := "0"
+		if len(b1) > len(b0) {
+			audited = "1"
+		}
+		res := cl + "|listed:" + listed + "|audited:" + audited
+		if listed == "1" && audited == "0" {
+			res += "!VIOL:an audit device is enabled (its disable answered " + cl + ", the audit table lists it) but a request was served without any audit entry#enabled-device-audits-nothing"
+		}
+		out.Op(res, "disableaudit", vh.I(int64(fault)))
+		_ = c.Shutdown()
+	}
+}
+
 func TestVerifC11E2E(t *testing.T) {
 	out := vh.Open()
 	defer out.Close()
+	c11eDisableFault(t, out)
 	c11eHeaders(t, out)
 	c11eHeadersStandby(t, out)
 	rng := vh.NewRand(vh.Seed() ^ 0xe2e11)
